@@ -3,6 +3,7 @@
 -/
 import Amoco.Proofs.Dis
 import Amoco.Proofs.DisKey
+import Amoco.Proofs.DisSetup
 
 namespace Amoco.Dis.Props
 
@@ -49,6 +50,23 @@ theorem index_hides_nothing (be : Bool) (maxlen : Nat) (t : Tree) (S : List Spec
     (hacc : ∀ s ∈ S, dec s ≠ .reject → b &&& s.amask be maxlen = s.afix be maxlen) :
     firstHit dec (route t b) = firstHit dec S :=
   firstHit_route be maxlen dec b t S hc hacc
+
+/-- `disassembler.setup`, as coded, always builds a tree that passes the routing check — for every
+    specification list, endianness, `maxlen` and recursion budget. -/
+theorem setup_checks (be : Bool) (maxlen fuel : Nat) (S : List SpecK) :
+    checkTree be maxlen (setup be maxlen fuel S) (sortW S) = true :=
+  Amoco.Dis.setup_checks be maxlen fuel S
+
+/-- **End to end on the model**: decoding through the tree that `setup` builds from ANY specification
+    list equals the most-constrained-first scan of that list. -/
+theorem lookup_setup_eq_scan (be : Bool) (maxlen sfuel : Nat) (S : List SpecK) {I : Type}
+    (dec : Option I → List Nat → SpecK → Out I) (xd : I → Option I)
+    (hacc : ∀ st bytes s, s ∈ sortW S → dec st bytes s ≠ .reject →
+              key be maxlen bytes &&& s.amask be maxlen = s.afix be maxlen)
+    (r : Bool) (fuel : Nat) (st : Option I) (bytes : List Nat) :
+    call r (fun bs => route (setup be maxlen sfuel S) (key be maxlen bs)) dec xd fuel st bytes
+      = call r (fun _ => sortW S) dec xd fuel st bytes :=
+  lookup_eq_scan be maxlen _ _ (setup_checks be maxlen sfuel S) dec xd hacc r fuel st bytes
 
 -- non-vacuity: a two-level tree over six specs passes the check and routes a key
 def exS : List SpecK :=
